@@ -57,8 +57,8 @@ Print Assumptions C03_refused_tokens.
    NameIdBuilder, the span bookkeeping, the top-level checks, unclosed_tag) can fail: the answer is a parsed tree, a ParseError,
    or the unwinding of a full interning table (BFull, the checked id conversion of C08) — never BPanic. *)
 Theorem C03_parse_never_panics :
-  forall bi t next srclen ts, stream_shape false ts = true -> parse_document bi t next srclen ts <> BPanic.
-Proof. exact parse_document_never_panics. Qed.
+  forall bi bom t next srclen ts, stream_shape false ts = true -> parse_document_at bi bom t next srclen ts <> BPanic.
+Proof. exact parse_document_at_never_panics. Qed.
 Print Assumptions C03_parse_never_panics.
 
 Theorem C03_parse_fragment_never_panics :
@@ -79,10 +79,10 @@ Print Assumptions C03_builder_invariant_along_any_stream.
    ordinary non-document nodes under the document node, leaves childless), has no attribute name and no declared prefix twice on
    an element, has no two adjacent text nodes, and occupies exactly the next free slots of the arena *)
 Theorem C03_accepted_tree_is_sound :
-  forall bi t next srclen ts p, parse_document bi t next srclen ts = BOk p ->
+  forall bi bom t next srclen ts p, parse_document_at bi bom t next srclen ts = BOk p ->
     shape_store (pr_tree p) = true /\ keys (pr_tree p) = true /\ na (pr_tree p) = true
     /\ exists cnt, Permutation.Permutation (ids (pr_tree p)) (nrange next cnt) /\ pr_next p = next + N.of_nat cnt.
-Proof. exact parse_document_sound. Qed.
+Proof. exact parse_document_at_sound. Qed.
 Print Assumptions C03_accepted_tree_is_sound.
 
 Theorem C03_accepted_fragment_is_sound :
@@ -91,6 +91,41 @@ Theorem C03_accepted_fragment_is_sound :
     /\ exists cnt, Permutation.Permutation (ids (pr_tree p)) (nrange next cnt) /\ pr_next p = next + N.of_nat cnt.
 Proof. exact parse_fragment_sound. Qed.
 Print Assumptions C03_accepted_fragment_is_sound.
+
+(* the reserved target (PITarget ::= Name - (('X'|'x')('M'|'m')('L'|'l'))): a processing instruction token whose target is xml
+   in any mix of cases never becomes a node — it is the XML declaration in the spelling xmlparser does not recognise (`<?xml`
+   followed by a tab or a line end; only at the very start of a document, only spelled xml, only with well-formed content,
+   [declaration_version]) and leaves the builder as it is, or the parse ends with an error *)
+Theorem C03_reserved_pi_target_never_becomes_a_node :
+  forall bi st target content, reserved_target (ss_text target) = true ->
+    bstep bi st (TkPI target content) = BOk st \/ exists e, bstep bi st (TkPI target content) = BErr e.
+Proof.
+  intros bi st target content H. cbn [bstep]. rewrite H.
+  match goal with |- (match ?x with Some _ => _ | None => _ end) = _ \/ _ => destruct x as [v|] end; [|right; eexists; reflexivity].
+  destruct (str_eqb _ _); [left; reflexivity|right; eexists; reflexivity].
+Qed.
+Print Assumptions C03_reserved_pi_target_never_becomes_a_node.
+
+(* the content of such a declaration: version 1.0 with white space around '=', either quote, an encoding and a standalone
+   declaration is read (the span is that of the version value); a version value that is no VersionNum, a missing version, a
+   pseudo-attribute out of order, or no white space between two of them is not *)
+Example C03_declaration_version_example :
+  let c := fun s => {| ss_text := s; ss_span := {| sp_start := 6; sp_end := 6 + N.of_nat (length s) |} |} in
+  (* version = '1.0' encoding="UTF-8" standalone='no' *)
+  declaration_version (c [118;101;114;115;105;111;110;32;61;32;39;49;46;48;39;32;101;110;99;111;100;105;110;103;61;34;85;84;70;45;56;34;10;
+                          115;116;97;110;100;97;108;111;110;101;61;39;110;111;39;32])
+    = Some {| ss_text := [49;46;48]; ss_span := {| sp_start := 17; sp_end := 20 |} |}
+  (* version="1.x" *)
+  /\ declaration_version (c [118;101;114;115;105;111;110;61;34;49;46;120;34]) = None
+  (* encoding="UTF-8" *)
+  /\ declaration_version (c [101;110;99;111;100;105;110;103;61;34;85;84;70;45;56;34]) = None
+  (* version="1.0" standalone="yes" encoding="UTF-8" *)
+  /\ declaration_version (c [118;101;114;115;105;111;110;61;34;49;46;48;34;32;115;116;97;110;100;97;108;111;110;101;61;34;121;101;115;34;32;
+                             101;110;99;111;100;105;110;103;61;34;85;84;70;45;56;34]) = None
+  (* version="1.0"encoding="UTF-8" *)
+  /\ declaration_version (c [118;101;114;115;105;111;110;61;34;49;46;48;34;101;110;99;111;100;105;110;103;61;34;85;84;70;45;56;34]) = None
+  /\ reserved_target [88; 109; 76] = true /\ reserved_target [120; 109; 108; 45; 115] = false.
+Proof. vm_compute. repeat split. Qed.
 
 (* non-vacuity: the hypothesis holds of a real stream, and a stream without that shape does reach an unwrap *)
 Example C03_shape_example :
